@@ -105,7 +105,7 @@ theorem C09_send_time_only (cfg : Config S) (P : NodeId → Proto S σ) (src dst
   have hc : copyDelivered cfg w' src dst = copyDelivered cfg w src dst := by
     unfold copyDelivered drawPasses
     rw [inRange_congr h1 h2 h3, h4]
-  have ht : deliverTime cfg w' = deliverTime cfg w := deliverTime_congr cfg (by rw [h5])
+  have ht : deliverTime cfg w' = deliverTime cfg w := deliverTime_congrM cfg (by rw [h5])
   have he : deliveryEv cfg w' src dst msg = deliveryEv cfg w src dst msg := by
     unfold deliveryEv; rw [ht, h5]
   rw [transmit_eq cfg src dst msg w', transmit_eq cfg src dst msg w, hc]
